@@ -263,10 +263,6 @@ func c19Kinds(n *vn.Node, g *histGen) int {
 // c19Ignorable: keys that legitimately differ between a running chain and one freshly
 // initialised from its export.
 func c19Ignorable(c vn.Change) bool {
-	switch c.Store {
-	case "feemarket":
-		return true // block gas of the last block is recomputed at the next EndBlock; params are compared in the document
-	}
 	return false
 }
 
